@@ -477,6 +477,16 @@ func c01MatchField(c *core.Ctx, keep int) {
 // C16 (static side; the run-time side is added by genexec.go).
 func C16(c *core.Ctx) {
 	c16Static(c)
+	// run-time side: fresh storage, nil stays nil, isolation after the source is overwritten
+	gxCommon(c, "GenExecTraceC16.cfg", "C16", func(r gxRun) bool {
+		ks, _ := r.begin["kinds"].([]any)
+		for _, k := range ks {
+			if s, _ := k.(string); strings.HasPrefix(s, "sl") {
+				return true
+			}
+		}
+		return false
+	})
 	c.Set("exhaustive", true)
 	c.Set("rule", "every (destination, candidate) pair of the type alphabet for which the specification permits a slice copy (identical / assignable / convertible element types, defined slice types) x candidate kind x toggles; the generated statement must be a permitted fresh-copy shape; distinct by (types, kind, typecast)")
 }
